@@ -135,6 +135,56 @@ def part_a(ctx, tree, leaves0, dsl, cfg):
                           f'{name} mutated {which or "the leaves list"}')
             before = after
             leaves_before = list(leaves)
+    part_a_failing(ctx, tree, dsl, cfg, spec, kw)
+
+
+def bad_partners(dsl, U, limit=6):
+    """Mismatching partner trees (one-edit near misses and their dict-kind / reversed-key variants)."""
+    out = []
+    for path in list(gen.node_paths(dsl))[:3]:
+        if gen.get_at(dsl, path) == 'L':
+            continue
+        for label, new in gen.local_edits(dsl, path):
+            out.append((label, new))
+            out.append((label + '+variant', gen.dict_variant(new)))
+            if len(out) >= limit:
+                return out
+    return out
+
+
+def part_a_failing(ctx, tree, dsl, cfg, spec, kw):
+    """Operations that FAIL (mismatching operand) must leave every operand untouched as well."""
+    U, _ = e1.universe()
+    for label, bdsl in bad_partners(dsl, U):
+        bad, _ = gen.build(bdsl, U)
+        bspec = optree.tree_structure(bad, **kw)
+        before = (snap(tree, U), snap(bad, U), spec_vector(spec), spec_vector(bspec))
+        ops = (
+            ('broadcast_to_common_suffix', lambda: spec.broadcast_to_common_suffix(bspec)),
+            ('broadcast_to_common_suffix-rev', lambda: bspec.broadcast_to_common_suffix(spec)),
+            ('is_prefix', lambda: (spec.is_prefix(bspec), bspec.is_prefix(spec), spec <= bspec, spec >= bspec)),
+            ('flatten_up_to', lambda: spec.flatten_up_to(bad)),
+            ('flatten_up_to-rev', lambda: bspec.flatten_up_to(tree)),
+            ('tree_map', lambda: optree.tree_map(lambda x, y: x, tree, bad, **kw)),
+            ('tree_broadcast_common', lambda: optree.tree_broadcast_common(tree, bad, **kw)),
+            ('tree_broadcast_map', lambda: optree.tree_broadcast_map(lambda x, y: x, bad, tree, **kw)),
+            ('prefix_errors', lambda: optree.prefix_errors(tree, bad, **kw)),
+            ('compose', lambda: spec.compose(bspec)),
+            ('eq', lambda: (spec == bspec, hash(bspec))),
+        )
+        for name, op in ops:
+            ctx.count()
+            ctx.extra['partA-failing-operations'] += 1
+            r = outcome_of(op)
+            del r
+            after = (snap(tree, U), snap(bad, U), spec_vector(spec), spec_vector(bspec))
+            if after != before:
+                which = [n for n, a, b in zip(('tree', 'other tree', 'treespec', 'other treespec'), before, after) if a != b]
+                ctx.violation(f'operand-mutated:{name}', f'{PROP}:operand-mutated-by-failing-operation',
+                              {'tree': dsl, 'cfg': cfg, 'op': name, 'other': bdsl, 'other_label': label},
+                              f'{name} (mismatching operand: {label}) mutated {which}: '
+                              f'{[b for a, b in zip(before, after) if a != b][0]!r}'[:700])
+                before = after
 
 
 # =============================================================================================
